@@ -98,24 +98,8 @@ def apply_relation(rng, spec, rel, ctx):
     return s, c, changed, extra_delta, None
 
 
-def run_case(ctx, i, rng):
-    rel = RELS[i % 7]
-    mode = (i // 7) % 5  # K = 1..4, or 0 = run to convergence
-    cross = bool((i // 35) % 2)
-    if rel in ("negate_quaternions",):
-        kinds = [["se3"], ["se3", "r3"], ["se3", "se3"]][int(rng.integers(3))]
-    elif rel == "shift_2pi":
-        kinds = [["se2"], ["se2", "r2"], ["se2", "se2"]][int(rng.integers(3))]
-    else:
-        kinds = None
-    if rng.random() < 0.6:
-        spec, labels = gen.cluster_graph(rng, kinds=kinds, custom=False, cross=cross, shuffle=False, weird_ids=bool(rng.random() < 0.3), special=bool(rng.random() < 0.3))
-    else:
-        k = kinds[0] if kinds else str(rng.choice(R.KINDS))
-        n = int(rng.integers(3, 10))
-        spec = gen.trajectory_graph(rng, k, n, n_loops=int(rng.integers(0, 4)), n_lm=int(rng.integers(0, 3)), meas_t=0.03, meas_r=0.02, init_t=0.15, init_r=0.08,
-                                    cond=100.0, cross=cross)
-        labels = set()
+def relation_check(ctx, rng, spec, rel, mode, cross, cond_max=1e8):
+    """Apply one re-representation to spec and compare chi2 / K-iteration results.  Returns a tuple of observations or None."""
     ctx.count("class:info_cross_terms" if cross else "class:info_blockdiag")
     ctx.count("rel:" + rel)
     spec2, c, changed, extra_delta, mapping = apply_relation(rng, spec, rel, ctx)
@@ -144,8 +128,8 @@ def run_case(ctx, i, rng):
     H, b, chi, idx, nn = M.assemble(g, "real")
     free = M.free_mask(g, nn, idx)
     dx, cond = M.reduced_step(H, b, free)
-    if dx is None or cond > 1e8:
-        raise Skip("cond(H) > 1e8")
+    if dx is None or cond > cond_max:
+        raise Skip("cond(H) > %.0e" % cond_max)
     kw = {"max_iter": mode, "tol": 0.0} if mode else {"max_iter": 50, "tol": 1e-10}
     # default behaviour (fix_first_pose=True: the first *listed* vertex is the gauge) wherever the relation keeps the list order
     ffp = bool(rel != "permute_vertices" and rng.random() < 0.5)
@@ -158,7 +142,7 @@ def run_case(ctx, i, rng):
         r2 = M.quiet_optimize(g2, fix_first_pose=ffp, **kw)
     except Exception as ex:
         ctx.check("result-representation-invariant", False, dict(feats, exception=type(ex).__name__), {"message": str(ex)[:300]}, case)
-        return
+        return None
     # measured on both executions; the smaller one counts (see C07)
     amp = min(M.iteration_amplification(spec, g, dict(kw, fix_first_pose=ffp)), M.iteration_amplification(spec2, g2, dict(kw, fix_first_pose=ffp)))
     if not (amp < 1e5):
@@ -191,6 +175,31 @@ def run_case(ctx, i, rng):
     if mode:
         # chi2 reports must agree as well (scaled)
         ctx.close("final-chi2-representation-invariant", r2.final_chi2, c * r1.final_chi2, max(c, 1) * (1e-7 * max(1.0, amp / 64) * abs(r1.final_chi2) + bound * 1e3 + 1e-20), feats, None, case)
+    return spec2, c, changed, c0, c1, worst, tol, moved
+
+
+def run_case(ctx, i, rng):
+    rel = RELS[i % 7]
+    mode = (i // 7) % 5  # K = 1..4, or 0 = run to convergence
+    cross = bool((i // 35) % 2)
+    if rel in ("negate_quaternions",):
+        kinds = [["se3"], ["se3", "r3"], ["se3", "se3"]][int(rng.integers(3))]
+    elif rel == "shift_2pi":
+        kinds = [["se2"], ["se2", "r2"], ["se2", "se2"]][int(rng.integers(3))]
+    else:
+        kinds = None
+    if rng.random() < 0.6:
+        spec, labels = gen.cluster_graph(rng, kinds=kinds, custom=False, cross=cross, shuffle=False, weird_ids=bool(rng.random() < 0.3), special=bool(rng.random() < 0.3))
+    else:
+        k = kinds[0] if kinds else str(rng.choice(R.KINDS))
+        n = int(rng.integers(3, 10))
+        spec = gen.trajectory_graph(rng, k, n, n_loops=int(rng.integers(0, 4)), n_lm=int(rng.integers(0, 3)), meas_t=0.03, meas_r=0.02, init_t=0.15, init_r=0.08,
+                                    cond=100.0, cross=cross)
+        labels = set()
+    out = relation_check(ctx, rng, spec, rel, mode, cross)
+    if out is None:
+        return
+    spec2, c, changed, c0, c1, worst, tol, moved = out
     if changed and moved > 1e-6:
         ctx.nontrivial(gen.fingerprint({"spec": spec, "rel": rel, "mode": mode}))
     ctx.sample({"relation": rel, "mode": "K=%d" % mode if mode else "to convergence", "info_cross_terms": cross, "n_vertices": len(spec["vertices"]), "n_edges": len(spec["edges"]),
@@ -223,3 +232,29 @@ def pinned_f3(ctx):
 
 
 PINNED = [pinned_f3]
+
+
+def _dataset_case(name, nmax, cross):
+    def f(ctx):
+        from .. import datasets
+
+        if not datasets.available(name):
+            ctx.skip("dataset file missing: " + name)
+            return
+        rng = np.random.default_rng([8, nmax, int(cross)])
+        spec = datasets.augment_with_landmarks(rng, datasets.load_spec(name, nmax), 8, cross_information=cross)
+        for rel in RELS:
+            if rel == "shift_2pi" and name != "intel":
+                continue
+            if rel == "negate_quaternions" and name != "garage":
+                continue
+            try:
+                relation_check(ctx, rng, spec, rel, int(rng.integers(1, 3)), cross, cond_max=1e13)
+            except Skip as sk:
+                ctx.skip("dataset %s: %s" % (name, sk.reason))
+        ctx.count("dataset:" + name)
+        ctx.nontrivial("dataset-%s-%d-%s" % (name, nmax, cross))
+    return f
+
+
+DATASET_CASES = [_dataset_case("intel", 120, False), _dataset_case("intel", 60, True), _dataset_case("garage", 40, False), _dataset_case("garage", 60, True)]
